@@ -137,6 +137,10 @@ NextE == UNCHANGED dummy /\
         \/ /\ nOf(h) # 0 /\ QNorm(h) < 12
            /\ \E rep \in Reps3, st \in STPairs : LET s == st[1] t == st[2] IN
               RepOK(rep, QPow(h, s + t)) /\ RepOK(rep, QPow(h, s)) /\ RepOK(rep, QPow(h, t)) /\
+              (* MRP 360-degree product singularity (excluded by the property): two half turns whose
+                 composite is the identity -- the MRP of a half turn has norm 1 with either sign, so the
+                 product quaternion may be -1 *)
+              ~(rep = "mrp" /\ QPow(h, s)[1] = 0 /\ QPow(h, t)[1] = 0 /\ nOf(QMul(QPow(h, s), QPow(h, t))) = 0) /\
               tv' = [op |-> "hom_so3", rep |-> rep, h |-> h, s |-> s, t |-> t, cell |-> cell,
                      exp |-> RM(QMat(QRed(QPow(h, s + t))), QNorm(QRed(QPow(h, s + t))))]
         (* log: group element with rotation h (any sign), translation p; principal expectation *)
